@@ -477,6 +477,74 @@ impl IpTransports {
     }
 }
 
+/// Verification hooks (C19): a public description of an IP bind and the two send-address
+/// decision functions of [`Config`].  Only compiled with `--cfg iroh_verif`.
+#[cfg(iroh_verif)]
+pub(crate) mod verif_hooks {
+    use super::*;
+
+    /// Public mirror of [`Config`].
+    #[derive(Debug, Clone, Copy, PartialEq, Eq)]
+    pub struct BindSpec {
+        /// Address (and for IPv6 the scope id) and port to bind.
+        pub addr: SocketAddr,
+        /// Prefix length of the attached subnet.
+        pub prefix_len: u8,
+        /// Default route flag.
+        pub is_default: bool,
+        /// Is binding mandatory.
+        pub is_required: bool,
+    }
+
+    impl BindSpec {
+        /// Converts into the crate-private [`Config`]; `None` if the prefix length is invalid.
+        pub(crate) fn config(&self) -> Option<Config> {
+            Some(match self.addr {
+                SocketAddr::V4(a) => Config::V4 {
+                    ip_net: Ipv4Net::new(*a.ip(), self.prefix_len).ok()?,
+                    port: a.port(),
+                    is_required: self.is_required,
+                    is_default: self.is_default,
+                },
+                SocketAddr::V6(a) => Config::V6 {
+                    ip_net: Ipv6Net::new(*a.ip(), self.prefix_len).ok()?,
+                    scope_id: a.scope_id(),
+                    port: a.port(),
+                    is_required: self.is_required,
+                    is_default: self.is_default,
+                },
+            })
+        }
+
+        /// [`Config::is_valid_send_addr`].
+        pub fn is_valid_send_addr(&self, src: Option<IpAddr>, dst: SocketAddr) -> Option<bool> {
+            Some(self.config()?.is_valid_send_addr(src, dst))
+        }
+
+        /// [`Config::is_valid_default_addr`].
+        pub fn is_valid_default_addr(&self, src: Option<IpAddr>, dst: SocketAddr) -> Option<bool> {
+            Some(self.config()?.is_valid_default_addr(src, dst))
+        }
+    }
+
+    impl IpTransports {
+        /// `(bind address, prefix length, is_default, local address)` of every bound socket in
+        /// routing-table order (IPv4 first).
+        pub(crate) fn verif_table(&self) -> Vec<(SocketAddr, u8, bool, SocketAddr)> {
+            self.iter()
+                .map(|t| {
+                    (
+                        t.bind_addr(),
+                        t.config.prefix_len(),
+                        t.config.is_default(),
+                        t.local_addr.get(),
+                    )
+                })
+                .collect()
+        }
+    }
+}
+
 #[cfg(test)]
 mod tests {
     use super::*;
